@@ -30,7 +30,9 @@ Lemma format_token_localizable rec loc t tok :
   format_token rec loc t tok = format_localizable loc t tok.
 Proof. intros H1 H2. unfold format_token. rewrite H1, H2. reflexivity. Qed.
 
-Ltac token_rule := erewrite format_token_rule by (vm_compute; reflexivity); cbn [apply_rule andb]; cbv beta iota zeta delta [fq_of];
+Ltac token_rule := erewrite format_token_rule; [ | vm_compute; reflexivity | vm_compute; reflexivity | reflexivity ];
+  cbn [apply_rule andb]; cbv beta iota zeta delta [fq_of q_year q_month q_day q_hour q_minute q_second q_microsecond q_quarter q_day_of_year
+                                                   q_day_of_week q_isoweekday q_week_of_year q_int_timestamp];
   try (unfold render_dec; cbn [Z.eqb Z.to_nat skipn]; reflexivity).
 
 Section Tokens.
